@@ -932,6 +932,8 @@ def elementwise(kind, v, extra=None):
             return Val(v.axes, inner.terms)                 # 1/(1/X) = X
         if kind == "Log":
             return neg(elementwise("Log", inner))           # log(1/X) = -log X
+    if kind == "Log" and sf is not None and sf[0].is_one() and ST.head[sf[1][0]].kind == "Exp" and all(x in allfree(v) for x in sf[1][1]):
+        return Val(v.axes, head_arg_val(sf[1][0], sf[1][1], v.axes).terms)      # log(exp(X)) = X
     slots = _occurring(v, nt)
     hid, order = _find_or_make(kind, nt, slots, (), False, extra)
     axes, m = fresh_axes(v.axes)
